@@ -1,0 +1,14 @@
+//go:build verif
+
+// Contracts for deductive verification (comment-only; read by /verif/govc, never compiled into the product).
+
+package cfgbackend
+
+// Existence of a key in the configuration store, as a mathematical function of the key: the store is assumed not to
+// change during one resolution (assumption listed in the evidence).
+//@ ghost func E(key string) bool
+
+//@ func (s ROSource) Exists(key string) (ok bool, err error)
+//@   noverify
+//@   pure
+//@   ensures ok == E(key)
